@@ -1022,6 +1022,21 @@ class Module(ABC):
         cumsum_ncomp = cumsum_leading_zero(ncomp_per_branch)
         internal_node_inds = np.arange(cumsum_ncomp[-1])
 
+        # Groups store row labels: shift the labels behind the modified branch and let a
+        # group that contained the branch contain all of its new compartments.
+        num_new = len(view)
+        end_idx = start_idx + num_previous_ncomp
+        for group_name, group_inds in self.base.groups.items():
+            group_inds = np.asarray(group_inds)
+            in_branch = (group_inds >= start_idx) & (group_inds < end_idx)
+            shifted = np.where(
+                group_inds >= end_idx, group_inds + num_new - num_previous_ncomp, group_inds
+            )[~in_branch]
+            new_inds = np.arange(start_idx, start_idx + num_new)
+            self.base.groups[group_name] = np.sort(
+                np.concatenate([shifted, new_inds if in_branch.any() else []])
+            ).astype(int)
+
         self.base.nodes = all_nodes
         self.base.ncomp_per_branch = ncomp_per_branch
         self.base.ncomp = ncomp
